@@ -22,6 +22,7 @@ pub mod c19;
 pub mod c20;
 pub mod corpus;
 pub mod lexemes;
+pub mod scale;
 
 use crate::engine::PropDef;
 
